@@ -502,9 +502,8 @@ class Fxp():
 
         # scaling conversion
         if self.scaled:
-            # (narrow numpy floats as python floats: the limits are not rounded to the parameter's own type)
-            _scale = float(self.scale) if isinstance(self.scale, np.floating) and self.scale.dtype.itemsize < 8 else self.scale
-            _bias = float(self.bias) if isinstance(self.bias, np.floating) and self.bias.dtype.itemsize < 8 else self.bias
+            # (numpy integers and narrow numpy floats as python numbers: the limits are not rounded to - or wrapped in - the parameter's own type)
+            _scale, _bias = utils.python_number(self.scale), utils.python_number(self.bias)
             self.upper = _scale * self.upper + _bias
             self.lower = _scale * self.lower + _bias
             self.precision = _scale * self.precision
@@ -819,12 +818,15 @@ class Fxp():
                     val = val.astype(np.int64)
                 if vdtype is not None and vdtype != complex and np.issubdtype(vdtype, np.unsignedinteger):
                     vdtype = int    # (the transformed values can be negative: they must not be cast back to an unsigned type)
+            # (numpy integers and narrow numpy floats as python numbers: a value that has become a python number would be biased and scaled in the
+            #  parameter's own narrow type)
+            _scale, _bias = utils.python_number(self.scale), utils.python_number(self.bias)
             if self.bias != 0:
-                if val.dtype.kind in 'iu' and val.size > 0 and max(abs(int(np.max(val))), abs(int(np.min(val))), abs(int(self.bias) if isinstance(self.bias, np.integer) else self.bias)) >= 2**62:
+                if val.dtype.kind in 'iu' and val.size > 0 and max(abs(int(np.max(val))), abs(int(np.min(val))), abs(_bias)) >= 2**62:
                     val = val.astype(object)    # integers close to the 64 bits limits: the bias is subtracted with python integers
-                val = val - self.bias
+                val = val - _bias
             if self.scale != 1:
-                val = val / self.scale
+                val = val / _scale
 
             if self.bias != 0 or self.scale != 1:
                 self.scaled = True # update scaled flag
@@ -1130,11 +1132,7 @@ class Fxp():
                 val = val.astype(np.int64)  # unsigned codes are moved to signed integers: scale or bias could be negative
             # (numpy integers and narrow numpy floats as python numbers: a python number times or plus a numpy scalar is evaluated in the numpy
             #  scalar's own type - it wraps around in a narrow integer, it is rounded in float16 / float32)
-            _scale, _bias = self.scale, self.bias
-            if isinstance(_scale, np.integer) or (isinstance(_scale, np.floating) and _scale.dtype.itemsize < 8):
-                _scale = _scale.item()
-            if isinstance(_bias, np.integer) or (isinstance(_bias, np.floating) and _bias.dtype.itemsize < 8):
-                _bias = _bias.item()
+            _scale, _bias = utils.python_number(self.scale), utils.python_number(self.bias)
             if isinstance(val, (np.ndarray, np.generic)) and val.dtype.kind == 'i' and val.size > 0 and isinstance(_scale, int) \
                     and max(abs(int(np.max(val))), abs(int(np.min(val)))) * abs(_scale) + (abs(_bias) if isinstance(_bias, int) else 0) >= 2**63:
                 val = np.asarray(val).astype(object)    # (the integer product - or the integer result - does not fit in 64 bits: python integers)
